@@ -451,7 +451,23 @@ func Random(id int, rng *rand.Rand, o Opts) *Prog {
 	if o.Aliases && len(structRefs) > 0 {
 		t := structRefs[0]
 		add(Decl{K: "alias", Name: "AliasAlpha", Under: &t})
-		add(Decl{K: "struct", Name: "UsesAlias", Fields: []Field{{Name: "A", Type: Ref("", "AliasAlpha")}, {Name: "B", Type: Basic("int")}}})
+		// alias chains: of a struct and of a named basic type
+		a1 := Ref("", "AliasAlpha")
+		add(Decl{K: "alias", Name: "AliasAlpha2", Under: &a1})
+		lb := Ref("", "Label")
+		add(Decl{K: "alias", Name: "LabelA", Under: &lb})
+		la := Ref("", "LabelA")
+		add(Decl{K: "alias", Name: "LabelB", Under: &la})
+		add(Decl{K: "struct", Name: "UsesAlias", Fields: []Field{{Name: "A", Type: Ref("", "AliasAlpha")}, {Name: "B", Type: Basic("int")},
+			{Name: "C", Type: Ref("", "AliasAlpha2")}, {Name: "D", Type: Ref("", "LabelB")}, {Name: "E", Type: Slice(Ref("", "LabelB"))}}})
+	}
+	if o.Recursive {
+		// named containers referring to themselves without a struct in between
+		tr := Slice(Ref("", "Tree"))
+		add(Decl{K: "named", Name: "Tree", Under: &tr})
+		dr := Map(Basic("string"), Ref("", "Dir"))
+		add(Decl{K: "named", Name: "Dir", Under: &dr})
+		add(Decl{K: "struct", Name: "UsesRec", Fields: []Field{{Name: "T", Type: Ref("", "Tree")}, {Name: "D", Type: Ref("", "Dir")}}})
 	}
 	return g.p
 }
